@@ -197,7 +197,7 @@ M("ck_f0_recomputed_wrong", "restart takes f0 from the checkpoint but forgets th
   ("lbfgsb/main.py", "        grad = checkpoint.jac\n", "        grad = -checkpoint.jac\n"))
 M("ck_only_x_restored", "history restored for x but gradients taken unshifted", ["C06"],
   ("lbfgsb/main.py", "        checkpoint.jac - np.cumsum(checkpoint.hess_inv.yk[::-1], axis=0)[::-1],\n", "        checkpoint.jac - np.cumsum(checkpoint.hess_inv.yk[::-1], axis=0)[::-1] * 0.5,\n"))
-M("ls_init_step_one", "pinned defect: line search starts at 1.0 beyond the max feasible step (reverse of the initial-step fix)", ["C06"],
+M("ls_init_step_one", "pinned defect: line search starts at 1.0 beyond the max feasible step (reverse of the initial-step fix); since fix b3344a3 the subspace point is projected and the bound-limited maximum step is never 1-eps any more, so the mutant only shows with a user step cap below 1 (C01 runs with max_steplength < 1)", ["C01"],
   ("lbfgsb/linesearch.py", "        steplength_0 = min(1.0, max_steplength)\n", "        steplength_0 = 1.0\n"))
 
 # --- main.py: callback state ------------------------------------------------------
